@@ -365,6 +365,12 @@ func (x *Exec) execBuiltin(fr *Frame, st *State, name string, cc *ssa.CallCommon
 				x.assume(st, mkLe(old, l))
 				st.setH("ghost:chanmin", mkStore(h, ch, l))
 			}
+			if key := x.chanKey(cc.Args[0]); key != "" && x.env.con.SoleProducer[key] != "" && x.env.con.SoleProducer[key] == strings.SplitN(x.topKey(), "$", 2)[0] {
+				// only this function sends on the channel, so a length it has observed is an upper
+				// bound until its own next send (others can only take): ghost chanmax
+				h := st.H("ghost:chanmax", arraySort(sortInt, sortInt))
+				st.setH("ghost:chanmax", mkStore(h, ch, l))
+			}
 			return l
 		}
 		x.unsup("%s of %v", name, t)
